@@ -8,9 +8,9 @@ MODEL = {"quick": dict(MaxN1=3, Grid1=3, MaxN2=1, Grid2=1, MaxK=2, MaxB=3),
 INVS = ["InvShape", "InvBox", "InvNearest", "InvUpdate", "InvClusterCost", "InvCostMonotone", "InvFixedPoint",
         "InvFx", "InvDone", "InvShift"]
 # (B) case generator
-GEN = {"quick": dict(Grid1=4, MaxN1=4, Grid2=2, MaxN2=3, MaxK=3, MaxB=3,
+GEN = {"quick": dict(Grid1=4, MaxN1=4, Grid2=2, MaxN2=3, MaxK=3, MaxB=3, DeepN=0,
                      RGrid1=4, RMaxN1=4, RGrid2=2, RMaxN2=3, Runs=3, Seeds="{1}"),
-       "thorough": dict(Grid1=5, MaxN1=5, Grid2=2, MaxN2=4, MaxK=3, MaxB=3,
+       "thorough": dict(Grid1=5, MaxN1=5, Grid2=2, MaxN2=4, MaxK=3, MaxB=3, DeepN=4,
                         RGrid1=5, RMaxN1=5, RGrid2=2, RMaxN2=4, Runs=4, Seeds="{1, 2}")}
 # sampling of the enumerated product (the complete sub-domain n <= FULL_N is always kept)
 FULL_N = {"quick": 2, "thorough": 2}
@@ -90,7 +90,8 @@ def random_cases(ctx, ntraj, nrestart):
         init = r.choice(["random", "kmpp", "kmpara"])
         out.append({"kind": "restart", "inp": {"ft": v[0], "metric": metric, "f": f, "pts": pts, "k": k, "init": init,
                                                "seed": r.randint(1, 1000), "runs": 1 if init == "kmpara" else r.randint(2, 4),
-                                               "maxit": 300, "qs": queries(f, g)[::3], "tol": [1, 1000000]}})
+                                               "maxit": r.choice([1, 2, 3, 300, 300]), "qs": queries(f, g)[::3],
+                                               "tol": [1, 1000000]}})
     return out
 
 
